@@ -267,11 +267,15 @@ func (rd *remoteDelivery) connectionForDomain(ctx context.Context, domain string
 	// each other. Therefore it is enough to enforce strict security only on
 	// the path to the MX even if it does not support the REQUIRETLS to propagate
 	// this requirement further.
+	//
+	// The option is dropped for this connection only: other recipient domains
+	// of the same message are still subject to REQUIRETLS.
+	mailOpts := rd.msgMeta.SMTPOpts
 	if ok, _ := conn.Client().Extension("REQUIRETLS"); rd.rt.relaxedREQUIRETLS && !ok {
-		rd.msgMeta.SMTPOpts.RequireTLS = false
+		mailOpts.RequireTLS = false
 	}
 
-	if err := conn.Mail(ctx, rd.mailFrom, rd.msgMeta.SMTPOpts); err != nil {
+	if err := conn.Mail(ctx, rd.mailFrom, mailOpts); err != nil {
 		conn.Close()
 		return nil, err
 	}
